@@ -9,7 +9,13 @@ Rules
       A path of the inverse whose longitude does not depend on Y on a set of longitudes of non-zero width is a violation.
   F4  stopping tolerance: the latitude iteration contracts with a factor q of about e2 <= 0.0069, so when it stops at |delta| <= tol
       the remaining error is at most tol q/(1-q); the 1e-9 rad claim therefore needs tol <= 1e-9 (1-q)/q = 1.44e-7 (necessary
-      condition on the folded constant; the library uses 1e-11)
+      condition on the folded constant; the library uses 1e-11); and tol is not below the spacing of doubles at the largest latitude
+      (2.2e-16 from 1 rad up) when |delta| <= tol is the only exit - otherwise termination needs an exact fixed point
+  F5  definedness: no quotient of the inverse is 0/0 at a point of the quantifier - every division num/den of the extracted formulas is
+      evaluated, after substituting the forward map, on exact witness points (latitude 0, +-45, +-89.9 deg; longitude 0, +-90, +-180 deg, 1 rad;
+      height 0, -11 km, 100 km); num = den = 0 there means NaN for that input (x/0 with x != 0 is +-inf, harmless under atan)
+  F6  hidden state (E-PURE): toECEF / toWGS84 keep nothing in function-local statics or mutable globals unless every input the kept
+      value depends on is compared on the path that re-uses it
   F3  ranges: every definition of the returned latitude is an atan(..) value, the longitude is 2*atan(..) (or atan2), and they are
       passed through makeGeodeticCoordinates in (latitude, longitude, altitude) order
 Not decided: convergence of the latitude iteration, the 1e-9 rad / 1 mm bounds, finiteness for every input (floating point)."""
@@ -33,7 +39,12 @@ LEVEL_NOTE = 'Not decided: convergence rate, rounding, finiteness. Trusted: clan
 Q = geo.ECEF
 
 
-def run(fx, R, tier):
+WIT = {'lat_deg': (0, 45, -45, sp.Rational(899, 10), -sp.Rational(899, 10)), 'heights': (0, -11000, 100000)}
+
+
+def run(fx, R, tier, lat_deg=None, heights=None):
+    WIT['lat_deg'] = lat_deg or (0, 45, -45, sp.Rational(899, 10), -sp.Rational(899, 10))
+    WIT['heights'] = heights or (0, -11000, 100000)
     R.floor('F1', 4)
     R.floor('F2', 4)
     fwd = geo.forward_formulas(fx)
@@ -43,6 +54,9 @@ def run(fx, R, tier):
         R.undecided('F1', 'ECEFConverter', 'anchor vanished or forward map not readable (toECEF / toWGS84 / EarthEllipsoid(a,b))')
         return
     R.used(fwd['fn'], finv, ell[0])
+    from .. import epure
+    for f_ in (fwd['fn'], finv):
+        epure.check(fx, R, 'F6', f_, 'ECEFConverter::%s' % f_['name'], fx.rel(f_['loc']), reader_kw={'call_hook': vec.hook})
     loc = fx.rel(fwd['fn']['loc'])
     X, Y, Z, lat, lon, h, a, e2 = (fwd[k] for k in ('X', 'Y', 'Z', 'lat', 'lon', 'alt', 'a', 'e2'))
     # ---- e2 definition ---------------------------------------------------------------
@@ -191,8 +205,12 @@ def check_inverse(fx, R, f, fwd):
             loc, 'E-INT')
     # exit condition monotone in |delta|
     cond = deep_unwrap(sx(L['c']))
-    R.check(isinstance(cond, tuple) and cond[0] in ('>', '>=') and cond[1] == 'delta', 'F2', 'ECEFConverter::toWGS84:loop-exit', 'loop condition is %s' % (cond,), 'iterates while delta > tolerance',
-            loc, 'E-STATE') if True else None
+    capped = isinstance(cond, tuple) and cond[0] == '&&'
+    simple = isinstance(cond, tuple) and cond[0] in ('>', '>=') and cond[1] == 'delta'
+    if simple:
+        R.holds('F2', 'ECEFConverter::toWGS84:loop-exit', 'iterates while delta > tolerance', loc, 'E-STATE')
+    else:
+        R.undecided('F2', 'ECEFConverter::toWGS84:loop-exit', 'loop condition %s is not `delta > tolerance`' % (cond,))
     # ---- F4 stopping tolerance ----------------------------------------------------------------------
     cnode = strip_casts(L['c'])
     tol = const_value(cnode.get('r')) if cnode.get('k') == 'Bin' else None
@@ -201,6 +219,13 @@ def check_inverse(fx, R, f, fwd):
     else:
         q = 0.0069
         bound = 1e-9 * (1 - q) / q
+        ulp = 2.220446049250313e-16      # spacing of doubles in [1, 2): latitudes from 57.3 deg upwards (quantifier: up to 89.9 deg)
+        if simple and 0 < tol < ulp:
+            R.violated('F4', 'ECEFConverter::toWGS84:tolerance-below-resolution', 'the only exit of the latitude iteration is |delta| <= %g, less than the spacing %.3g of doubles for latitudes of 1 rad and more '
+                       '(the quantifier goes to 89.9 deg): the test can only be met by an exact fixed point, and when rounding makes the update alternate between two adjacent doubles the loop never ends - '
+                       'no result, let alone a finite one' % (tol, ulp), loc, 'E-INT')
+        elif simple:
+            R.holds('F4', 'ECEFConverter::toWGS84:tolerance-below-resolution', 'tolerance %g is above the spacing of doubles at pi/2 (%.3g)' % (tol, ulp), loc, 'E-INT')
         R.check(0 < tol <= bound, 'F4', 'ECEFConverter::toWGS84:tolerance', 'the iteration stops at |delta| <= %g; with contraction factor about e2 = 0.0069 the latitude error can then reach %.3g rad, above the 1e-9 rad of the statement '
                 '(tolerance must not exceed %.3g)' % (tol, tol * q / (1 - q), bound), 'tolerance %g <= %.3g' % (tol, bound), loc, 'E-INT')
     # ---- altitude -------------------------------------------------------------------------------
@@ -211,6 +236,11 @@ def check_inverse(fx, R, f, fwd):
     except sym.Unsupported as u:
         R.undecided('F2', 'ECEFConverter::toWGS84:altitude', 'symbolic reader (epilogue): %s' % u)
         return
+    dexprs = [('longitude', st.locals.get(ids.get('longitude'))) for st in pres] + [('initial latitude', init_lat), ('latitude update', new_lat)] + \
+        [('altitude', st.locals.get(ids.get('altitude'))) for st in posts]
+    nq = check_definedness(R, [(w_, e_) for (w_, e_) in dexprs if isinstance(e_, sp.Basic)], substitute, lat, lon, h, a, e2, loc)
+    if nq == 0:
+        R.undecided('F5', 'ECEFConverter::toWGS84:quotients', 'no quotient found in the extracted formulas')
     for st in posts:
         altv = st.locals.get(ids.get('altitude'))
         if not isinstance(altv, sp.Basic):
@@ -230,6 +260,74 @@ def check_inverse(fx, R, f, fwd):
             R.check(bool(rng), 'F3', 'ECEFConverter::toWGS84:longitude-range', 'longitude is %s: not of a form confined to [-pi, pi]' % lonr, 'longitude = 2 atan(..) in [-pi, pi]', loc, 'E-INT')
         else:
             R.undecided('F3', 'ECEFConverter::toWGS84:result-order', 'returned value not readable as the three fields: %s' % (r,))
+
+
+def quotients(expr, acc=None, parent=None):
+    """[(numerator, denominator, enclosing function)] for every division below expr (unsimplified reader output)."""
+    acc = [] if acc is None else acc
+    if not isinstance(expr, sp.Basic):
+        return acc
+    if expr.is_Mul:
+        dens = [a for a in expr.args if a.is_Pow and a.args[1].is_number and a.args[1].is_negative]
+        if dens:
+            num = sp.Mul(*[a for a in expr.args if a not in dens], evaluate=False) if len(expr.args) > len(dens) else sp.Integer(1)
+            for d in dens:
+                acc.append((num, d.args[0], parent))
+    elif expr.is_Pow and expr.args[1].is_number and expr.args[1].is_negative:
+        acc.append((sp.Integer(1), expr.args[0], parent))
+    for a in expr.args:
+        quotients(a, acc, expr.func if expr.is_Function else parent if expr.is_Mul or expr.is_Pow or expr.is_Add else None)
+    return acc
+
+
+def check_definedness(R, exprs, substitute, lat, lon, h, a, e2, loc):
+    wit = []
+    for la in [sp.pi * sp.nsimplify(d) / 180 for d in WIT['lat_deg']]:
+        for lo in (sp.Integer(0), sp.pi / 2, -sp.pi / 2, sp.pi, -sp.pi, sp.Integer(1)):
+            for hh in WIT['heights']:
+                wit.append({lat: la, lon: lo, h: hh, a: 6378137, e2: sp.Rational(669438, 10 ** 8)})
+
+    def is_zero(v):
+        try:
+            return abs(complex(sp.N(v, 60))) < 1e-40
+        except (TypeError, ValueError):
+            return None
+    seen, n_q = set(), 0
+    for (what, e) in exprs:
+        for (num, den, ctx) in quotients(e):
+            key = (str(num), str(den))
+            if key in seen:
+                continue
+            seen.add(key)
+            n_q += 1
+            ns, ds = substitute(num), substitute(den)
+            bad = inf = None
+            unknown = False
+            for w in wit:
+                dz = is_zero(ds.subs(w))
+                if dz is None:
+                    unknown = True
+                    continue
+                if dz:
+                    nz = is_zero(ns.subs(w))
+                    if nz:
+                        bad = bad or w
+                    elif nz is False:
+                        inf = inf or w
+                    else:
+                        unknown = True
+            deg = lambda w: 'latitude %s deg, longitude %s deg, height %s m' % (sp.N(w[lat] * 180 / sp.pi, 5), sp.N(w[lon] * 180 / sp.pi, 5), w[h])
+            inst = 'ECEFConverter::toWGS84:%s:(%s)/(%s)' % (what, str(num)[:40], str(den)[:40])
+            if bad:
+                R.violated('F5', 'ECEFConverter::toWGS84:%s:zero-over-zero' % what, 'the quotient (%s)/(%s) is 0/0 for the point at %s (inside the quantifier): the %s is NaN for that input, '
+                           'not a finite value in range' % (num, den, deg(bad), what), loc, 'E-INT')
+            elif inf and ctx != sp.atan:
+                R.undecided('F5', inst, 'denominator vanishes at %s with a non-zero numerator (+-inf) outside an atan' % deg(inf))
+            elif unknown:
+                R.undecided('F5', inst, 'not evaluable on the witness points')
+            else:
+                R.holds('F5', inst, 'never 0/0 on %d witness points%s' % (len(wit), ' (x/0 = +-inf only under atan)' if inf else ''), loc, 'E-INT')
+    return n_q
 
 
 def replace_norm(expr, norm_expr, value):
